@@ -96,6 +96,18 @@ def make_pool(r):
     P.add("Scalar(caption)", Scalar(ObtainQuantity("m", "length", "my caption"), 1.5))
     P.add("FixedArray(unknown,caption)", FixedArray(3, GetUnknownQuantity("Feeeet"), [1.0, 2.0, 4.0]))
     P.add("FixedArray(caption)", FixedArray(3, ObtainQuantity("m", "length", "my caption"), (1.0, 2.0, 4.0)))
+    # results whose quantity was built by the library on the way (m + cm, a legacy spelling): equal to, but not the same
+    # object as, what a fresh request returns
+    P.add("FixedArray(m+cm)", FixedArray(3, "length", [1.0, 2.0, 4.0], "m") + FixedArray(3, "length", [10.0, 20.0, 40.0], "cm"))
+    P.add("FixedArray(cm-m, depth)", FixedArray(3, "depth", (1.0, 2.0, 4.0), "cm") - FixedArray(3, "length", (1.0, 2.0, 4.0), "m"))
+    P.add("Scalar(m+cm)", Scalar("length", 1.0, "m") + Scalar("length", 10.0, "cm"))
+    P.add("FixedArray(legacy spelling)", FixedArray(3, "volume flow rate", [1.0, 2.0, 4.0], "1000ft3/d"))
+    P.add("Scalar(legacy spelling)", Scalar("volume flow rate", 2.0, "1000ft3/d"))
+    # numpy containers that are not one-dimensional (a 0-d array, rows): what they hold *and their shape* stay
+    nd0, nd2, nd2f = np.array(2.5), np.array([[1.0, 2.0, 3.0], [4.0, 5.0, 6.0]]), np.array([[1.0, 2.0, 3.0], [4.0, 5.0, 6.0]])
+    P.add("Array[nd 0-d]", Array("length", nd0, "m"), nd0)
+    P.add("Array[nd 2-d]", Array("length", nd2, "m"), nd2)
+    P.add("FixedArray[nd 2-d]", FixedArray(2, "length", nd2f, "m"), nd2f)
     P.add("FractionValue", FractionValue(1, (1, 2)))
     P.add("Fraction", Fraction(3, 4))
     return P
@@ -135,6 +147,16 @@ def check_copy(ctx, how, a, b, case):
         return
     ctx.ev()
     try:
+        import numpy as np
+
+        va = a.GetAbstractValue() if hasattr(a, "GetAbstractValue") else None
+        from barril.units import Array as _Array
+
+        if isinstance(a, _Array) and not (isinstance(va, (list, tuple)) or (isinstance(va, np.ndarray) and va.ndim == 1)):
+            # == is promised for one-dimensional containers (C08); a copy of anything else is compared through its snapshot
+            if b is None or snapshot.value_object(a) != snapshot.value_object(b):
+                ctx.violation("copy-differs-in-a-field:%s:%s" % (how, type(a).__name__), dict(case, original=repr(snapshot.value_object(a))[:200], copied=repr(snapshot.value_object(b))[:200] if b is not None else None), replay=case)
+            return
         eq = a == b
         ne = a != b
     except Exception as e:
@@ -159,6 +181,12 @@ def check_copy(ctx, how, a, b, case):
         ctx.violation("copy-differs-in-a-field:%s:%s" % (how, type(a).__name__), dict(case, original=repr(fa)[:200], copied=repr(fb)[:200]), replay=case)
 
 
+def monitors_is_value(o):
+    from ..monitors.operand_frozen import is_value_object
+
+    return is_value_object(o)
+
+
 def one_history(ctx, gid, n_steps, mon):
     import numpy as np
     from barril.basic.fraction import Fraction, FractionValue
@@ -175,6 +203,36 @@ def one_history(ctx, gid, n_steps, mon):
         c = o.GetCategory() if hasattr(o, "GetCategory") else None
         return US.get(c, ["m", "s", "kg"])
 
+    if gid % 8 == 0:
+        # every member, every copy form, once (the random steps below reach a given pair only now and then)
+        for label, a, _s in list(P.members):
+            if not monitors_is_value(a):
+                continue
+            for how in ("copy", "deepcopy", "CreateCopy()", "Copy", "pickle", "str", "repr", "format"):
+                case = dict(base_case, step=-1, op=[how, type(a).__name__], label=label)
+                try:
+                    if how == "copy":
+                        res = copy.copy(a)
+                    elif how == "deepcopy":
+                        res = copy.deepcopy(a)
+                    elif how == "CreateCopy()":
+                        res = a.CreateCopy() if hasattr(a, "CreateCopy") else None
+                    elif how == "Copy":
+                        res = a.Copy() if hasattr(a, "Copy") else None
+                    elif how == "pickle":
+                        res = pickle.loads(pickle.dumps(a)) if isinstance(a, (Scalar, FixedArray)) and not isinstance(a, FractionScalar) else None
+                    else:
+                        res = None
+                        {"str": str, "repr": repr, "format": lambda o: "%s" % (o,)}[how](a)
+                except Exception:
+                    res = None  # an object that cannot be copied / printed that way (0-d and 2-d containers): nothing to compare
+                ctx.ev()
+                if res is not None:
+                    check_copy(ctx, how, a, res, case)
+                for qual, before, after in mon.drain():
+                    ctx.violation("operand-changed-by:%s" % qual, dict(case, before=repr(before)[:300], after=repr(after)[:300]), replay=case)
+                for lbl, before, after in P.check():
+                    ctx.violation("pool-member-changed:%s:after:%s" % (lbl.split("#")[0], how), dict(case, member=lbl, before=repr(before)[:300], after=repr(after)[:300]), replay=case)
     for step in range(n_steps):
         objs = P.objects()
         a = r.choice(objs)
